@@ -981,7 +981,8 @@ def float_display_concretised(ex, v):
     x = f64_concrete(v)
     is32 = hasattr(v, 'g')
     if x is None:
-        conds = [(c, z3.fpEQ(v.f, z3.FPVal(c, z3.Float64()))) for c in FLOAT_REPRESENTATIVES]
+        import struct as _st
+        conds = [(c, z3.fpToIEEEBV(v.f) == z3.BitVecVal(_st.unpack('<Q', _st.pack('<d', c))[0], 64)) for c in FLOAT_REPRESENTATIVES + [-0.0]]
         conds.append((None, z3.And(*[z3.Not(c[1]) for c in conds])))
         x = ex.choose(conds)
         if x is None: raise Unsupported('Display of a symbolic float outside the representatives')
